@@ -43,6 +43,9 @@ func unitsOf(fset *token.FileSet, files []*ast.File, info *types.Info) []*Unit {
 				}
 				name = types.ExprString(t) + "." + name
 			}
+			if expandedAway[name] {
+				continue // analysed inside its callers (inline.go)
+			}
 			obj, _ := info.Defs[fd.Name].(*types.Func)
 			u := &Unit{Name: name, Body: fd.Body, Type: fd.Type, Decl: fd, Obj: obj}
 			out = append(out, u)
